@@ -16,6 +16,7 @@ Descriptor grammar (all JSON):
 """
 import contextlib
 import re
+import threading
 import types
 
 KINDS = ["enter", "pushmgr", "pushfn", "pushmeth", "callback",
@@ -43,6 +44,20 @@ def drive(coro):
     raise RuntimeError("helper coroutine suspended unexpectedly")
 
 
+def _plain_repr(self):
+    """repr of the plain managers: raises while the environment injects a fault; the designated
+    signalling manager lets the owner thread register one more callback and waits for it"""
+    env = self.env
+    if env.fault:
+        raise RuntimeError("injected repr fault")
+    if env.signal_obj is self and threading.current_thread() is env.extractor and not env.go.is_set():
+        env.signalled = True
+        env.go.set()
+        if not env.registered.wait(20):
+            raise SystemExit("harness: owner thread did not register")
+    return object.__repr__(self)
+
+
 class Plain:
     def __init__(self, env, act=False):
         self.env, self.act = env, act
@@ -56,6 +71,8 @@ class Plain:
 
     def other(self, *exc):
         pass
+
+    __repr__ = lambda self: _plain_repr(self)
 
 
 class FalsyPlain(Plain):
@@ -79,6 +96,8 @@ class APlain:
 
     async def aother(self, *exc):
         pass
+
+    __repr__ = lambda self: _plain_repr(self)
 
 
 class FalsyAPlain(APlain):
@@ -132,6 +151,14 @@ class Env:
         self.trap = _trap
         self.stackscope = None
         self.names = {}        # manager index -> as-variable name
+        self.plan = desc.get("plan", "single")
+        self.fault = False
+        self.signal_obj = None
+        self.signalled = False
+        self.extractor = threading.current_thread()
+        self.ready, self.go, self.registered, self.done = (threading.Event() for _ in range(4))
+        self.observations = []
+        self.notes = []
 
     # ---------------------------------------------------------------- source generation
     def number(self):
@@ -153,6 +180,8 @@ class Env:
                     self._num_mgr(c["m"])
             if m.get("cur") is not None and m["cur"].get("m") is not None:
                 self._num_mgr(m["cur"]["m"], act=True)
+            if m.get("late") is not None and m["late"].get("m") is not None:
+                self._num_mgr(m["late"]["m"])
 
     def _num_frm(self, f, fk, on_path, body):
         f["_id"] = 10 + self.nfrm
@@ -160,6 +189,8 @@ class Env:
         self.nfrm += 1
         fid = f["_id"]
         lines = [("async def" if fk in ("coro", "agen") else "def") + " f%d(E):" % fid]
+        if fk == "fn":
+            assert f["tail"][0] == "stop" and not body
         ind = 1
         ws = list(f["ws"])
         tail = f["tail"]
@@ -197,7 +228,9 @@ class Env:
             if not body:
                 lines.append(pad + "pass")
         elif tail[0] == "stop":
-            if self.mode == "run":
+            if fk == "fn":
+                lines.append(pad + "E.park()")
+            elif self.mode == "run":
                 lines.append(pad + "E.probe()")
             elif fk == "gen":
                 assert not body, "a sync manager cannot suspend while exiting"
@@ -276,12 +309,30 @@ class Env:
         return fn
 
     def _populate(self, m):
-        st = self.m[m["_i"]]
         regs = []
         cur = m.get("cur")
         for c in m["cbs"] + ([cur] if cur is not None else []):
+            regs.append(self._register(m, c, c is cur))
+        m["_regs"] = regs
+        self._annotate(m, m["cbs"])
+
+    def _annotate(self, m, cbdescs):
+        # the modelled part: what contextlib actually stored
+        st = self.m[m["_i"]]
+        regs = m["_regs"]
+        cbs = list(st._exit_callbacks)
+        assert len(cbs) == len(regs), "contextlib stored %d callbacks for %d registrations" % (len(cbs), len(regs))
+        for c, reg, (is_sync, cb) in zip(cbdescs, regs, cbs):
+            if "_ocb" not in c:
+                c["_ocb"] = self.reg(cb)
+            slf = getattr(cb, "__self__", None)
+            c["_oself"] = self.oid.get(id(slf), 0) if hasattr(cb, "__self__") else 0
+            c["_av"] = attr_vector(is_sync, cb, reg)
+
+    def _register(self, m, c, act):
+        st = self.m[m["_i"]]
+        if True:
             k = c["k"]
-            act = c is cur
             child = self.m[c["m"]["_i"]] if c.get("m") is not None else None
             cm = c.get("m")
             if k == "enter":
@@ -324,29 +375,76 @@ class Env:
                 (st.push_async_exit if is_a else st.push)(registered)
             else:
                 raise AssertionError(k)
-            regs.append(registered)
             self.keep.append(registered)
-        m["_regs"] = regs
-        # the modelled part: what contextlib actually stored
-        cbs = list(st._exit_callbacks)
-        assert len(cbs) == len(regs), "contextlib stored %d callbacks for %d registrations" % (len(cbs), len(regs))
-        m["_cbs"] = cbs
-        for c, reg, (is_sync, cb) in zip(m["cbs"], regs, cbs):
-            c["_ocb"] = self.reg(cb)
-            slf = getattr(cb, "__self__", None)
-            c["_oself"] = self.oid.get(id(slf), 0) if hasattr(cb, "__self__") else 0
-            c["_av"] = attr_vector(is_sync, cb, reg)
+            return registered
 
     # ---------------------------------------------------------------- running
     def probe(self):
         if self.result is None:
             self.observe()
 
+    def _extract_abs(self, tag):
+        st = self.stackscope.extract(self.root_obj)
+        notes = []
+        out = abstract_stack(self, st, notes)
+        self.notes += ["%s: %s" % (tag, n) for n in notes]
+        return st, out
+
     def observe(self):
-        self.result = self.stackscope.extract(self.root_obj)
-        # abstract now: the exit stacks still hold the callbacks the children were made from
-        self.notes = []
-        self.abstracted = abstract_stack(self, self.result, self.notes)
+        """abstraction happens right here: the exit stacks still hold the callbacks the children were made from"""
+        self.result, self.abstracted = self._extract_abs("first")
+        self.observations = [self.abstracted]
+        if self.plan == "single":
+            # extraction is an observation: doing it again must give the same tree
+            _, again = self._extract_abs("second")
+            if again != self.abstracted:
+                self.notes.append("a second extraction of the unchanged tree differs from the first")
+        elif self.plan == "hist":
+            # an extraction that fails part-way, then two more after the fault is gone
+            self.fault = True
+            try:
+                faulted = self.stackscope.extract(self.root_obj)
+                self.fault_error = faulted.error is not None
+            finally:
+                self.fault = False
+            for tag in ("after-fault-1", "after-fault-2"):
+                self.observations.append(self._extract_abs(tag)[1])
+
+    # ---------------------------------------------------------------- owner thread (plan "conc")
+    def park(self):
+        self.ready.set()
+        self.go.wait(30)
+        m = self.late_stack
+        m["_regs"].append(self._register(m, m["late"], False))
+        self.registered.set()
+        self.done.wait(30)
+
+    def run_thread(self):
+        import stackscope
+        self.stackscope = stackscope
+        self.build()
+        self.late_stack = [m for m in self.mnodes if m.get("late") is not None][0]
+        sig = self.desc["signal"]
+        self.signal_obj = self.m[self.late_stack["cbs"][sig]["m"]["_i"]]
+        th = threading.Thread(target=self.ns["f%d" % self.desc["root"]["_id"]], args=(self,), daemon=True)
+        th.start()
+        try:
+            if not self.ready.wait(20):
+                raise RuntimeError("owner thread did not reach the parking point")
+            self.root_obj = th
+            st1 = self.stackscope.extract(th)
+            self.go.set()
+            if not self.registered.wait(20):
+                raise RuntimeError("owner thread did not register")
+            self._annotate(self.late_stack, self.late_stack["cbs"] + [self.late_stack["late"]])
+            notes = []
+            self.observations = [abstract_stack(self, st1, notes)]
+            self.notes += ["during-registration: " + n for n in notes]
+            self.observations.append(self._extract_abs("after-registration")[1])
+        finally:
+            self.go.set()
+            self.done.set()
+            th.join(20)
 
     def run(self):
         import stackscope
